@@ -270,7 +270,7 @@ func init() {
 		} else if tier == "search" {
 			worlds = 1500
 		}
-		fams := []string{"S", "C", "R", "N", "U", "S", "R", "N", "C"}
+		fams := []string{"S", "C", "R", "N", "U", "E", "S", "R", "N", "C"}
 		c11JudgeWorld(r, c11F6bWitness(), true) // dedicated probe of the listed finding F6b
 		for i := 0; i < worlds && !expired(); i++ {
 			f := c11Families[fams[i%len(fams)]]
